@@ -15,7 +15,7 @@ EVBASE = 'django_evolution/evolve/base.py'
 
 RUNMOD = ['SQLExecutor._latest_transaction', 'AtomicCM.using', 'tx', 'tx_db', 'exec_n', 'failed', 'failed_stmt']
 EXC = K.Opt(K.Atom('ExcInfo'))
-PARAMS = K.Opt(K.Atom('Params'))
+PARAMS = K.Opt(K.Seq(K.Atom('Param')))     # None or a tuple of bound parameters
 STMT = K.Tuple(K.Str, PARAMS)
 BATCH = K.Tuple(K.Seq(STMT), K.Bool)
 SQL = K.Atom('SQLItem')
@@ -151,6 +151,8 @@ def build():
            returns=K.Seq(BATCH),
            note='groups prepared statements into (statements, use_transaction) batches; generator treated as '
                 'an eager list (laziness listed as an unmodelled assumption)')
+    w.stub('Backend.quote_sql_param', params={'self': K.Ref('Backend'), 'param': K.Atom('Param')},
+           returns=K.Atom('Quoted'), pure=True, note='quoting of one SQL parameter for display (C14)')
     w.stub('render_sql', params={'statement': K.Str, 'params': PARAMS}, returns=K.Str, pure=True,
            note="statement % tuple(quote_sql_param(p) for p in params): the preview's rendering (C14)")
     w.contract(
@@ -164,8 +166,7 @@ def build():
         raises={'Exception': True}, modifies=RUNMOD,
         exc_fields={'last_sql_statement': K.Tuple(K.Opt(K.Str), PARAMS)},
         abstract={"if capture:\n                        if params:":
-                  ["if capture:\n    out_sql = out_sql + [render_sql(statement, params)]"],
-                  "qp = self._evolver_backend.quote_sql_param": ["qp = None"]},
+                  ["if capture:\n    out_sql = out_sql + [render_sql(statement, params)]"]},
         invariants={
             1: LoopInv('for batch, use_transaction in batches:', index='b0',
                        clauses=[INV, 'tx == old(tx)', 'not failed', 'exec_n == old(exec_n)',
@@ -203,6 +204,14 @@ def build():
                                    "_on_evolving is connected to exactly 'evolving' and _on_evolving_done to exactly "
                                    "'evolved' and 'evolving_failed' (decorator arguments), so the lock is balanced "
                                    'whenever evolving is answered by exactly one of them'))
+    from pyvc.runner import Bounded
+    from adapters import exec_harness
+    fam.bounded.append(Bounded('run_sql_fault_injection', ['C07'], exec_harness.check_run_sql_contract,
+                               scope='5 statements x every failure index, real SQLite',
+                               stands_in_for='native cross-check of the SQLExecutor contracts (and their fallback when '
+                                             'run_sql leaves the engine\'s subset)'))
+    fam.replay['SQLExecutor.run_sql'] = lambda label, inputs: _as_replay(exec_harness.check_run_sql_contract())
+    fam.replay['bounded:run_sql_fault_injection'] = lambda label, inputs: _as_replay(exec_harness.check_run_sql_contract())
     fam.replay['SQLExecutor.__exit__'] = replay_executor_exit
     fam.replay['SQLExecutor.new_transaction'] = replay_new_transaction
     return fam
@@ -505,3 +514,7 @@ def syn_lock_receivers():
     ok = a == ['receiver(evolving)'] and b in (['receiver([evolved, evolving_failed])'],
                                                 ['receiver([evolving_failed, evolved])'])
     return ok, 'decorators: %r / %r' % (a, b)
+
+
+def _as_replay(res):
+    return {'reproduced': bool(res['failures']), 'failures': res['failures'][:3], 'evaluations': res['evaluations']}
